@@ -112,3 +112,25 @@ def eval_in_module(ctx, module_info, expr, env=None):
 
 def opaque(t):
     return ("op", norm(t))
+
+
+def guard_reject_set(root, walker, exits, pred, univ, empty, pure=False, allow=()):
+    """Union over exits satisfying pred of the subject values their innermost guard rejects on its own
+    (opaque atoms of that guard taken as false).  pure=True keeps only guards without other atoms (except `allow`)."""
+    s = empty
+    n = 0
+    for e in exits:
+        if not pred(e) or e.node is None:
+            continue
+        t = enclosing_test(root, e.node)
+        if t is None:
+            continue
+        f = walker.atomize(t)
+        if not gi.involves_subject(f):
+            continue
+        ops = gi.f_opaques(f)
+        if pure and any(o not in allow for o in ops):
+            continue
+        n += 1
+        s = s | gi.sat_set(f, univ, empty, assume={o: False for o in ops})
+    return s, n
